@@ -1715,7 +1715,7 @@ def gallery_cases():
             _type_info = [('h', AnyHtml)]
         return H, H(h=etree.fromstring('<p>hi</p>'))
 
-    @case('numbers', n=4, bad=[('d', '1.234'), ('d', '123456789'), ('da', '1.23'), ('e', '1.4'), ('e', '10'), ('g', '0.4'), ('t', '12345'),
+    @case('numbers', n=4, soft=False, bad=[('d', '1.234'), ('d', '123456789'), ('da', '1.23'), ('e', '1.4'), ('e', '10'), ('g', '0.4'), ('t', '12345'),
                                ('m', '5'), ('pt', '+12'), ('pd', '3.1'), ('f', 'inf'), ('d', '1E+2')])
     def _(i):
         class Num(ComplexModel):
@@ -1735,6 +1735,44 @@ def gallery_cases():
             __namespace__ = 'urn:ga'
             _type_info = [('d', Decimal)]
         return Sci, Sci(d=[D('1E+2'), D('2.8E+10'), D('0E-7')][i % 3])
+
+    @case('xsi-type-explicit', n=2, xsi=[('s', 'Shape'), ('s', 'Circle'), ('Shape', 'Shape'), ('Shape', 'Circle'), ('p', 'Shape'),
+                                         ('p', 'Circle'), ('r', 'Shape'), ('r', 'Circle')])
+    def _(i):
+        # xsi:type on elements whose declared type is a CUSTOMISED variant of a class (member with min_occurs=1, items of an
+        # Array, a repeated member) and on a plain member
+        from spyne.model.complex import Array
+
+        class Shape(ComplexModel):
+            __namespace__ = 'urn:ga'
+            _type_info = [('name', Unicode)]
+
+        class Circle(Shape):
+            __namespace__ = 'urn:ga'
+            _type_info = [('radius', Integer)]
+
+        class Box(ComplexModel):
+            __namespace__ = 'urn:ga'
+            _type_info = [('s', Shape.customize(min_occurs=1, nillable=False)), ('arr', Array(Shape)), ('p', Shape),
+                          ('r', Shape.customize(max_occurs=3))]
+        return Box, [Box(s=Shape(name='a'), arr=[Shape(name='b'), Shape(name='c')], p=Shape(name='d'), r=[Shape(name='e')]),
+                     Box(s=Shape(), arr=[Shape()], r=[Shape(name='e'), Shape()])][i % 2]
+
+    @case('append-field-history', n=2)
+    def _(i):
+        # history: the derived class is used (its flattened member list gets memoised), THEN a member is appended to its base,
+        # then the application is built: schema, client, lxml hook and soft decoder must all know the inherited member
+        class HBase(ComplexModel):
+            __namespace__ = 'urn:ga'
+            _type_info = [('a', Unicode)]
+
+        class HDer(HBase):
+            __namespace__ = 'urn:ga'
+            _type_info = [('b', Integer)]
+        gallery_run('append-field-history:before', lambda _i: (HDer, HDer(a='x', b=1)), {}, 0, 'xml')
+        HDer.get_flat_type_info(HDer)
+        HBase.append_field('extra', [Unicode(min_occurs=1, nillable=False), Integer8(ge=3, min_occurs=1)][i % 2])
+        return HDer, HDer(a='x', b=1, extra=['v', 5][i % 2])
 
     @case('integer-bounds', n=20)
     def _(i):
@@ -1871,6 +1909,53 @@ def gallery_run(name, f, opts, i, proto, verbose=False):
     rb = body_el(proto, resp)
     okr = rb is not None and bool(vs.validate(rb))
     out.append(('response', okr, '' if okr else last_error(vs, rb), resp.decode('utf-8', 'replace')))
+
+    def serve(validator, payload):
+        """(fault text or None, response bytes) of a fresh application with that validator"""
+        xb._APP_COUNTER[0] += 1
+        a2 = Application([svc], 'urn:g', name='Gallery%d' % xb._APP_COUNTER[0], in_protocol=P(validator=validator), out_protocol=P())
+        s2 = ServerBase(a2)
+        c0 = MethodContext(s2, MethodContext.SERVER)
+        c0.in_string = [payload]
+        c2 = s2.generate_contexts(c0)[0]
+        if c2.in_error is None:
+            s2.get_in_object(c2)
+        if c2.in_error is not None:
+            return str(c2.in_error), None
+        s2.get_out_object(c2)
+        if c2.out_error is not None:
+            return str(c2.out_error), None
+        s2.get_out_string(c2)
+        return None, b''.join(c2.out_string)
+    # schema = soft decoder: the request the schema accepts is served by validator='soft' with the same answer
+    if opts.get('soft') is False:
+        # Double's default bounds are exclusive infinities: validator=soft refuses INF / -INF, which xs:double (and the
+        # lxml path) accepts — upstream's reading, recorded in fixes/C06-known.json; the soft stage is left out for this case
+        fault, resp_soft = None, resp
+    else:
+        fault, resp_soft = serve('soft', data)
+    rbs = body_el(proto, resp_soft) if resp_soft else None
+    oks = fault is None and rbs is not None and xb.node_of(rbs) == xb.node_of(rb)
+    out.append(('soft-serves', oks, '' if oks else (fault or 'validator=soft answers differently: %s' % (resp_soft or b'').decode('utf-8', 'replace')[:300]),
+                data.decode('utf-8', 'replace')))
+    # schema accepts => decoder accepts, for requests that spell xsi:type explicitly (as .NET / Java clients do): the declared
+    # type itself and each subclass, on the listed members
+    for member, tname in opts.get('xsi', ()):
+        doc = etree.fromstring(data)
+        hits = [e for e in doc.iter() if isinstance(e.tag, str) and etree.QName(e).localname == member and e.prefix]
+        if not hits:
+            continue
+        for e in hits:
+            e.set(XSI_TYPE, '%s:%s' % (e.prefix, tname))
+        payload = etree.tostring(doc)
+        b3 = body_el(proto, payload, app.in_protocol)
+        if not vs.validate(b3):
+            out.append(('xsi-type:%s=%s:schema' % (member, tname), None, 'not a schema-valid spelling: %s' % last_error(vs, b3), None))
+            continue
+        for validator in ('lxml', 'soft'):
+            fault, _r = serve(validator, payload)
+            out.append(('xsi-type:%s=%s:%s' % (member, tname, validator), fault is None,
+                        'the published schema accepts the document, validator=%s answers %s' % (validator, fault), payload.decode('utf-8', 'replace')))
     if extra.get('hdr') is not None:
         env = etree.fromstring(resp)
         hdr = [h for h in env if etree.QName(h).localname == 'Header']
